@@ -326,7 +326,28 @@ SCAN_ALLOWED = {
     'rough_tlv::decoder::MessageView::new': {'skip': 1},                  # xs.iter().zip(xs.iter().skip(1)): adjacent offsets
     'rough_tlv::encoder::MessageWrapper::new_from_sorted': {'skip': 1},   # elements.iter().zip(elements.iter().skip(1)): adjacent tags
     'sliding_deque::sorted_deque::SortedDeque::iter': {'filter': 1},      # the public iterator hides tombstones
+    'owning_iovec::global_deque::GlobalDeque::consume': {'subslice': 1},  # self.slices[..count]: the sizes of the slices consumed
 }
+_SUBSLICE = ('split_at', 'split_at_mut', 'split_at_checked', 'split_first', 'split_last', 'first_chunk', 'last_chunk', 'chunks', 'chunks_exact', 'rchunks')
+
+
+def _subslice_sources(it):
+    """calls in an iterator's receiver expression that hand it a *part* of a slice: `xs[a..b]`, `xs.get(a..b)`, `split_at`, `chunks` ..."""
+    out = []
+    for c in it.walk():
+        if c.kind != 'call' or not c.op:
+            continue
+        nm = c.op.rsplit('::', 1)[-1]
+        if nm in _SUBSLICE:
+            out.append(c)
+        elif nm in ('index', 'index_mut', 'get', 'get_mut'):
+            for a in c.args:
+                a = a.strip()
+                rn = (a.info.get('name') or '') if a.kind == 'agg' else ''
+                if 'ops::range::Range' in rn and not rn.endswith('RangeFull'):
+                    out.append(c)
+                    break
+    return out
 
 
 def scan_rule(prefixes):
@@ -336,7 +357,7 @@ def scan_rule(prefixes):
         seen = 0
         for fn in cx.prog.find_fns(lambda f: any(f.name.startswith(p) for p in prefixes)):
             owner = re.sub(r'(::\{closure#\d+\})+$', '', fn.name)
-            c = per_fn.setdefault(owner, (collections.Counter(), [], fn))
+            c = per_fn.setdefault(owner, (collections.Counter(), [], fn, set()))
             for cs in fn.calls():
                 if 'Iterator' in cs.callee:
                     seen += 1
@@ -344,10 +365,18 @@ def scan_rule(prefixes):
                 if m and not cs.t.get('exp'):
                     c[0][m.group(1)] += 1
                     c[1].append(cs)
+                if 'Iterator' in cs.callee and not cs.t.get('exp') and cs.args():
+                    # the source of the iteration is a part of a slice
+                    for sub in _subslice_sources(cs.arg(0)):
+                        key = sub.pos if sub.pos is not None else id(sub)
+                        if key not in c[3]:
+                            c[3].add(key)
+                            c[0]['subslice'] += 1
+                            c[1].append(cs)
         cx.require(per_fn, 'no function under %s' % (prefixes,))
         bad = 0
         for owner in sorted(per_fn):
-            cnt, sites, fn = per_fn[owner]
+            cnt, sites, fn, _ = per_fn[owner]
             allowed = SCAN_ALLOWED.get(owner, {})
             extra = {k: v - allowed.get(k, 0) for k, v in cnt.items() if v > allowed.get(k, 0)}
             if cnt or extra:
@@ -355,10 +384,10 @@ def scan_rule(prefixes):
                 cx.check(not extra, 'scan-complete:' + short(owner), fn, sites[0].loc() if sites else None,
                          'element-dropping adaptors are the audited ones: %s' % (dict(cnt) or 'none'),
                          fail_detail='%s gains %s: the loop no longer visits every element of its source, in order (audited on the reference tree: %s)'
-                         % (short(owner), ', '.join('.%s() x%d' % kv for kv in sorted(extra.items())), allowed or 'none'))
+                         % (short(owner), ', '.join(('a loop over part of a slice x%d' % kv[1]) if kv[0] == 'subslice' else '.%s() x%d' % kv for kv in sorted(extra.items())), allowed or 'none'))
                 bad += bool(extra)
         cx.check(bad == 0, 'scan-inventory', None, None, '%d functions under %s, %d iterator calls: no element-dropping adaptor beyond the audited ones'
                  % (len(per_fn), '/'.join(prefixes), seen), fail_detail='%d function(s) gained an element-dropping iterator adaptor' % bad)
     rule.__doc__ = ('loops visit every element: no iterator adaptor that drops or reorders elements (take, skip, step_by, take_while, skip_while, '
-                    'map_while, filter, filter_map, rev, nth) in %s beyond the three audited on the reference tree' % ', '.join(prefixes))
+                    'map_while, filter, filter_map, rev, nth) in %s and no loop over a part of a slice, beyond the four audited on the reference tree' % ', '.join(prefixes))
     return rule
